@@ -459,6 +459,7 @@ func gobPayload(r rng, sc *Scenario) []byte {
 		x.SetPrec(uint(r.genPrec(2, false))) // produce a non-exact accuracy
 	}
 	b, _ := x.GobEncode()
+	b = ownBytes(b)
 	verifrt.Resume()
 	if r.chance(0.35) {
 		return b
